@@ -8,10 +8,12 @@ import configparser
 import io
 import os
 import shutil
+import signal
 import socket
 import ssl
 import sys
 import tempfile
+import threading
 import warnings
 
 REPO = os.environ.get("PYG_REPO", "/repo")
@@ -179,10 +181,23 @@ class Resp:
         return res
 
 
+class Hang(BaseException):
+    """A request that did not return within its time limit (blocked on a FIFO, a socket, a lock...).
+    BaseException so that no `except Exception` in the code under test swallows it."""
+
+
+def _on_alarm(signum, frame):
+    raise Hang("request did not return within the time limit")
+
+
+REQUEST_TIMEOUT = float(os.environ.get("VERIF_REQUEST_TIMEOUT", "6"))
+
+
 def request(req, config, tls=False, cwd=None, wfile=None, server=None, reset=True,
             quiet=True):
     """Run one request line (bytes, including what follows the first line) through the
-    real GopherRequestHandler.handle.  Returns Resp."""
+    real GopherRequestHandler.handle.  Returns Resp.  A request that blocks longer than
+    REQUEST_TIMEOUT seconds is interrupted (main thread only) and reported as exc=Hang."""
     init_once()
     if reset:
         reset_globals()
@@ -201,6 +216,10 @@ def request(req, config, tls=False, cwd=None, wfile=None, server=None, reset=Tru
         sys.stderr = io.StringIO()
     if cwd:
         os.chdir(cwd)
+    timed = threading.current_thread() is threading.main_thread()
+    if timed:
+        prev = signal.signal(signal.SIGALRM, _on_alarm)
+        signal.setitimer(signal.ITIMER_REAL, REQUEST_TIMEOUT)
     try:
         GopherRequestHandler.handle(h)
     except BaseException as e:  # noqa
@@ -208,6 +227,9 @@ def request(req, config, tls=False, cwd=None, wfile=None, server=None, reset=Tru
             raise
         exc = e
     finally:
+        if timed:
+            signal.setitimer(signal.ITIMER_REAL, 0)
+            signal.signal(signal.SIGALRM, prev)
         sys.stderr = olderr
         if cwd:
             os.chdir(old)
